@@ -97,7 +97,7 @@ def shard_tables(sh, part):
     from outrank.task_summary import outrank_task_result_summary
     pipe.quiet()
     rng = sh.rng('tables', part)
-    reps = 60 if sh.tier == 'quick' else 250
+    reps = 60 if sh.tier == 'quick' else 1500
     for t in range(reps):
         nf = rng.choice([1, 2, 3, 5, 12, 60])
         label = rng.choice(['label', 'click', 'y'])
